@@ -239,39 +239,7 @@ func runC01(c *Check) {
 
 	// ---- R6
 	if sa := c.stateAnchors("R6"); sa != nil {
-		if fn := c.Fn("R6", "state.(*State).ClearBlockRequestsAfter"); fn != nil {
-			var emptied []ssa.Instruction
-			for _, st := range storesToField(fn, sa.blocksToRequest) {
-				if cst, ok := st.Val.(*ssa.Const); ok && cst.IsNil() {
-					emptied = append(emptied, st)
-				}
-				if sl, ok := st.Val.(*ssa.Slice); ok {
-					if k, isC := constInt(sl.High); isC && k == 0 {
-						emptied = append(emptied, st)
-					}
-				}
-			}
-			nB := 0
-			for _, b := range fn.Blocks {
-				iff, ok := lastIf(b)
-				if !ok {
-					continue
-				}
-				for br := 0; br < 2; br++ {
-					if equalEdge(func(x, y ssa.Value) bool { return mentionsField(x, sa.rbHash) }, true)(iff, br) {
-						nB++
-						okF := containsInstr(b.Succs[br], emptied)
-						var w []string
-						if !okF {
-							okF, w = alwaysFollowedBy(b.Succs[br].Instrs[0], emptied, false, nil)
-						}
-						c.Decide(okF, "R6", "state.(*State).ClearBlockRequestsAfter#to-request-queue-emptied", ifPos(iff), "must-pass-through", w,
-							"when the fork point is a requested block the not-yet-requested queue is emptied", "a fork at a requested block can leave the old branch's not-yet-requested hashes queued: the new branch is refused (wrong previous hash) and the stale branch is downloaded")
-					}
-				}
-			}
-			c.Min("R6", "fork-point matches among requested blocks", nB, 1)
-		}
+		c.ruleToRequestEmptied("R6", sa)
 	}
 
 	// ---- R7
